@@ -98,6 +98,11 @@ def gen(R, tier):
         template = '[$]%s[$]' % body
         variants = [template.replace('@', a) for a in arr]
         case = dict(level=level, node=k, natoms=n, names=names)
+    elif R.chance(0.2):
+        # an explicitly written, annotated hydrogen
+        template = R.choice(['[$]C([H@])[$]', '[$]N([H@])C[$]', '[$]C([H@])([H])O[$]'])
+        variants = [template.replace('@', a) for a in arr]
+        case = dict(level=level, node=1, natoms=2, explicit_h=True)
     else:
         n = R.randint(1, 4)
         k = R.randrange(n)
@@ -185,7 +190,7 @@ def oracle(case):
             _check_attrs(dict(fine.nodes[n]), want, '%s fine node %d' % (full, n), False)
         for n, d in fine.nodes(data=True):
             if n in copies or d.get('element') == 'H':
-                continue
+                continue    # other hydrogens copy the weight of their atom (C09)
             expect(d.get('weight') == 1 and 'chiral' not in d and not (set(given) - {'weight', 'chiral'}) & set(d),
                    'annotation:leak', lambda: '%s: other node %d carries %r' % (full, n, {k: d[k] for k in d if k in given or k == 'weight'}))
         # the coarse nodes keep defaults
